@@ -22,9 +22,15 @@ type pOutcome struct {
 
 // runParserCases executes the requests on the worker pool (one persistent
 // child per worker; every request is self-contained).
-func runParserCases(pw *parserWorld, reqs []*parsersim.Request, timeout time.Duration, env []string) []pOutcome {
+func runParserCases(pw *parserWorld, reqs []*parsersim.Request, timeout time.Duration, env []string, restartEvery int) []pOutcome {
 	out := make([]pOutcome, len(reqs))
 	parallel(len(reqs), workers(), pw.bin, env, func(i int, w *worker) {
+		if restartEvery > 0 && w.calls > 0 && w.calls%restartEvery == 0 && w.cmd != nil {
+			// a fresh process: package-level state of the parsers is cold again
+			w.in.Close()
+			w.kill()
+		}
+		w.calls++
 		resp, st, detail := pcall(w, reqs[i], timeout)
 		switch st {
 		case callTimeout:
